@@ -12,10 +12,11 @@ namespace C08
 /-! ## obligations on the current source -/
 
 /-- OBLIGATION: the source releases an entity's id and its node id in one place only
-(`remove_ent` releases nothing) and `IDMan.discard` never lowers `search_pos` below 1. -/
+(`remove_ent` releases nothing), `IDMan.discard` never lowers `search_pos` below 1, and a brush
+whose constructor raised before it obtained an id from the manager releases nothing. -/
 theorem C08_gen_cfg :
     Gen.C08.cfg.removeEntDiscardsEntId = false ∧ Gen.C08.cfg.removeEntDiscardsNodeId = false ∧
-      Gen.C08.cfg.discardGuard = true := by decide
+      Gen.C08.cfg.discardGuard = true ∧ Gen.C08.cfg.failedCtorReleases = false := by decide
 
 /-- OBLIGATION: every id-manager call of vmf.py is one the model knows (no code 999), all the
 calls the model executes unconditionally are there, exactly once each. -/
@@ -172,7 +173,7 @@ example : ((aliveObjs (run Gen.C08.cfg sampleHistory)).map (fun p => (p.2.kind.c
 def origCfg : Cfg :=
   { removeEntDiscardsEntId := true, removeEntDiscardsNodeId := true, discardGuard := false,
     addEntAllocatesNode := true, popReleasesNode := false, parseKeepsPlaceholder := true,
-    removeSpawnRaises := false }
+    removeSpawnRaises := false, failedCtorReleases := true }
 
 /-- **Double release (the defect).** With `remove_ent` releasing the entity id *and*
 `Entity.__del__` releasing it again: create a, add, remove (1st release); create b (gets a's id),
@@ -208,8 +209,20 @@ theorem C08_node_release :
 
 /-- **Non-positive ids.** Unguarded `discard(-1)` after a failing brush constructor. -/
 theorem C08_nonpositive :
-    hasNonPos (run origCfg [.newmap, .failsolid 0, .solid 0 0 (-1) []]) = true ∧
-    hasNonPos (run { origCfg with discardGuard := true } [.newmap, .failsolid 0, .solid 0 0 (-1) []]) = false := by
+    hasNonPos (run origCfg [.newmap, .failsolid 0 (-1), .solid 0 0 (-1) []]) = true ∧
+    hasNonPos (run { origCfg with discardGuard := true } [.newmap, .failsolid 0 (-1), .solid 0 0 (-1) []]) = false := by
+  decide +kernel
+
+/-- **Failed constructor.** A brush whose attrs `__init__` raised after storing the DESIRED id but
+before `__attrs_post_init__` registered anything: its `__del__` released that number — a live
+brush's id — although every other release site and the guard were already repaired. -/
+theorem C08_failed_ctor :
+    hasDupLive (run { origCfg with removeEntDiscardsEntId := false, removeEntDiscardsNodeId := false,
+                                   discardGuard := true }
+      [.newmap, .solid 0 0 (-1) [], .failsolid 0 1, .solid 1 0 (-1) []]) = true ∧
+    hasDupLive (run { origCfg with removeEntDiscardsEntId := false, removeEntDiscardsNodeId := false,
+                                   discardGuard := true, failedCtorReleases := false }
+      [.newmap, .solid 0 0 (-1) [], .failsolid 0 1, .solid 1 0 (-1) []]) = false := by
   decide +kernel
 
 /-! ## fixup indexes -/
